@@ -43,7 +43,7 @@ func c04ChokePoints(c *Ctx, rule string) int {
 			fns = append(fns, cs.Fn)
 			poss[cs.Fn] = cs.Call.Pos()
 		}
-		c.whoMay(rule, what, fns, poss, allow)
+		c.whoMayDeep(rule, what, fns, poss, allow)
 	}
 	who("call writeWithContext", wwc.Object(), fnSet(send))
 	who("call readWithContext", rwc.Object(), fnSet(rf, rfe))
@@ -64,8 +64,8 @@ func c04ChokePoints(c *Ctx, rule string) int {
 				rd = append(rd, a.Fn)
 			}
 		}
-		c.whoMay(rule, "read "+f.name, rd, poss, fnSet(f.rdOK))
-		c.whoMay(rule, "write "+f.name, wr, poss, fnSet(ns, sc))
+		c.whoMayDeep(rule, "read "+f.name, rd, poss, fnSet(f.rdOK))
+		c.whoMayDeep(rule, "write "+f.name, wr, poss, fnSet(ns, sc))
 	}
 	// direct I/O on the raw connection
 	ioMethod := func(m string) bool {
@@ -182,21 +182,27 @@ func c04Anchors(c *Ctx, rule string) *c04Stream {
 // may be pruned by the caller.
 func c04DigestCtor(c *Ctx, rule string, a *c04Stream, field *types.Var) bool {
 	good := true
+	allow := fnSet(a.ns)
+	inCtor := func(fn *ssa.Function) bool {
+		t := topFn(fn)
+		return t == a.ns || c.onlyReachableFrom(t, allow)
+	}
 	var wr []*ssa.Function
 	poss := map[*ssa.Function]token.Pos{}
 	for _, acc := range c.fieldAccesses(field) {
 		if acc.Write {
 			wr = append(wr, acc.Fn)
 			poss[acc.Fn] = acc.Instr.Pos()
-			if topFn(acc.Fn) != a.ns {
+			if !inCtor(acc.Fn) {
 				good = false
 			}
 		}
 	}
-	c.whoMay(rule, "write Stream."+field.Name(), wr, poss, fnSet(a.ns))
-	// the stored value is sha256.New()
+	c.whoMayDeep(rule, "write Stream."+field.Name(), wr, poss, allow)
+	// the stored value is sha256.New() (directly or through a value helper of the constructor)
 	stored := 0
-	allInstrs(a.ns, func(_ *ssa.BasicBlock, _ int, in ssa.Instruction) {
+	x := c04NewX(c.Prog)
+	x.Root(a.ns).Walk(func(fr *c04Frame, in ssa.Instruction) {
 		st, ok := in.(*ssa.Store)
 		if !ok {
 			return
@@ -207,12 +213,10 @@ func c04DigestCtor(c *Ctx, rule string, a *c04Stream, field *types.Var) bool {
 		}
 		stored++
 		isNew := false
-		for _, o := range origins(a.ns, st.Val) {
-			if call, _ := originCall(o); call != nil {
-				if f := calleeObj(call); f != nil && f.Pkg() != nil && f.Pkg().Path() == "crypto/sha256" && f.Name() == "New" {
-					isNew = true
-					continue
-				}
+		for _, o := range x.Origins(nil, fr, st.Val) {
+			if call, _ := originCall(o.V); call != nil && c12PkgFunc(call, "crypto/sha256", "New") {
+				isNew = true
+				continue
 			}
 			isNew = false
 			break
@@ -233,94 +237,13 @@ func c04DigestCtor(c *Ctx, rule string, a *c04Stream, field *types.Var) bool {
 			if !ok {
 				return
 			}
-			if types.Identical(al.Type().Underlying().(*types.Pointer).Elem(), streamT) && topFn(fn) != a.ns {
+			if types.Identical(al.Type().Underlying().(*types.Pointer).Elem(), streamT) && !inCtor(fn) {
 				good = false
 				c.Violate(rule, "alloc-Stream@"+fnName(topFn(fn)), "a Stream is allocated outside NewStream: its handshake digests are nil and nothing it sends or receives in the clear is bound into the channel", al.Pos())
 			}
 		})
 	}
 	return good
-}
-
-// c04HashWrites lists the invocations of Write on a value loaded from the given digest field.
-func c04HashWrites(fn *ssa.Function, digest *types.Var) []ssa.CallInstruction {
-	var out []ssa.CallInstruction
-	allInstrs(fn, func(_ *ssa.BasicBlock, _ int, in ssa.Instruction) {
-		call, ok := in.(ssa.CallInstruction)
-		if !ok {
-			return
-		}
-		cc := call.Common()
-		if cc.IsInvoke() && cc.Method.Name() == "Write" && readsField(cc.Value, digest) && len(cc.Args) == 1 {
-			out = append(out, call)
-		}
-	})
-	return out
-}
-
-// c04TrueStores lists the stores of the constant true to field f in fn.
-func c04TrueStores(fn *ssa.Function, f *types.Var) []ssa.Instruction {
-	var out []ssa.Instruction
-	allInstrs(fn, func(_ *ssa.BasicBlock, _ int, in ssa.Instruction) {
-		if st, ok := in.(*ssa.Store); ok {
-			if fa, ok := st.Addr.(*ssa.FieldAddr); ok && fieldOfAddr(fa) == f {
-				if b, isC := constBool(st.Val); isC && b {
-					out = append(out, st)
-				}
-			}
-		}
-	})
-	return out
-}
-
-// c04SameData: a and b carry the same bytes on some path: identical value, or they share a leaf
-// origin (the returned slice is a phi of the decrypted and the undecrypted buffer; hashing either
-// leaf is accepted - with the digest frozen at key installation the two are never both live).
-func c04SameData(fn *ssa.Function, a, b ssa.Value) bool {
-	if stripConv(a) == stripConv(b) {
-		return true
-	}
-	set := map[ssa.Value]bool{}
-	for _, v := range origins(fn, a) {
-		set[v] = true
-	}
-	for _, v := range origins(fn, b) {
-		if set[v] {
-			return true
-		}
-	}
-	return false
-}
-
-// c04WholeOf: v is the whole of the local buffer root (root itself, or root[:] / root[:len]).
-func c04WholeOf(v, root ssa.Value) bool {
-	for {
-		if v == root {
-			return true
-		}
-		sl, ok := v.(*ssa.Slice)
-		if !ok {
-			return false
-		}
-		if sl.Low != nil {
-			if lo, isC := constInt(sl.Low); !isC || lo != 0 {
-				return false
-			}
-		}
-		if sl.High != nil {
-			hi, isC := constInt(sl.High)
-			n := int64(-1)
-			if al, ok := memRoot(sl.X).(*ssa.Alloc); ok {
-				if arr, ok := al.Type().Underlying().(*types.Pointer).Elem().Underlying().(*types.Array); ok {
-					n = arr.Len()
-				}
-			}
-			if !isC || hi != n {
-				return false
-			}
-		}
-		v = sl.X
-	}
 }
 
 // ---------------------------------------------------------------------------
@@ -333,13 +256,35 @@ type c04AADPart struct {
 	Pos    token.Pos
 }
 
+// c04AEADSite is a Seal/Open call in the inlined view of the encrypt/decrypt function.
+type c04AEADSite struct {
+	fr   *c04Frame
+	call ssa.CallInstruction
+}
+
+// c04AADView builds the inlined view of encryptDataWithAAD / decryptDataWithAAD in which the AAD rules
+// (C04-R4, C12-R5) look for the AEAD call, the buffers, the copies and the first-frame flag.
+func c04AADView(c *Ctx, a *c04Stream, fn *ssa.Function, aead *types.Func, flag *types.Var) (*c04X, *c04Frame, []c04AEADSite) {
+	x := c04NewX(c.Prog)
+	root := x.Root(fn)
+	var aeads []c04AEADSite
+	root.Walk(func(fr *c04Frame, in ssa.Instruction) {
+		if call, ok := isCallTo(in, aead); ok {
+			aeads = append(aeads, c04AEADSite{fr, call})
+		}
+	})
+	return x, root, aeads
+}
+
 // c04AADBranch is one way the AAD argument of Seal/Open is built.
 type c04AADBranch struct {
 	Buf      *ssa.MakeSlice
-	LenConst int64 // constant part of the buffer length
-	LenOfHdr bool  // length includes len(frameHeader)
+	BufFr    *c04Frame // frame in which the buffer is made (the AEAD function or a helper of it)
+	LenConst int64     // constant part of the buffer length
+	LenOfHdr bool      // length includes len(frameHeader)
 	Parts    []c04AADPart
-	First    bool // built on the edge on which the first-frame flag is still false
+	First    bool // built only on the edge on which the first-frame flag is still false
+	Later    bool // built only on the edge on which the first-frame flag is already true
 }
 
 func (b c04AADBranch) String() string {
@@ -357,108 +302,174 @@ func (b c04AADBranch) String() string {
 	return s
 }
 
-// c04AADLayout extracts, for the AEAD call (Seal or Open) in fn, how each possible AAD buffer is
-// filled. flag is the per-direction first-frame field (finishedSendAAD / finishedRecvAAD).
-// ok=false when the AAD argument is not a (phi of) locally made buffer(s) filled by copy().
-func c04AADLayout(fn *ssa.Function, aead ssa.CallInstruction, flag *types.Var) (out []c04AADBranch, ok bool) {
+// c04AADLayout extracts, for the AEAD call (Seal or Open) found in frame afr of the inlined view rooted at
+// root, how each possible AAD buffer is filled. flag is the per-direction first-frame field (finishedSendAAD /
+// finishedRecvAAD), hdr the frame-header parameter of the root function. The buffer may be made and filled in
+// the root function or in helpers it calls (a value helper returning the buffer, a helper filling it).
+// ok=false when the AAD argument is not a (phi of) locally made buffer(s) filled by copy() at constant offsets.
+func c04AADLayout(x *c04X, root, afr *c04Frame, aead ssa.CallInstruction, flag *types.Var, hdr *ssa.Parameter) (out []c04AADBranch, ok bool) {
 	args := aead.Common().Args
 	if len(args) != 4 {
 		return nil, false
 	}
-	off, _ := fieldCondEdges(fn, flag)
-	for _, o := range origins(fn, args[3]) {
-		ms, isMS := o.(*ssa.MakeSlice)
+	hdrV := c04XV{root, hdr}
+	for _, o := range x.Origins(nil, afr, args[3]) {
+		ms, isMS := o.V.(*ssa.MakeSlice)
 		if !isMS {
 			return nil, false
 		}
-		br := c04AADBranch{Buf: ms}
-		// length: const, len(param), or const + len(param)
-		var walkLen func(v ssa.Value) bool
-		walkLen = func(v ssa.Value) bool {
-			v = c01Strip(v)
-			if k, isC := constInt(v); isC {
+		buf := c04XV{o.Fr, ms}
+		br := c04AADBranch{Buf: ms, BufFr: o.Fr}
+		// length: const, len(header), or const + len(header)
+		var walkLen func(fr *c04Frame, v ssa.Value) bool
+		walkLen = func(fr *c04Frame, v ssa.Value) bool {
+			cv := x.CanonInt(nil, fr, v)
+			if k, isC := constInt(cv.V); isC {
 				br.LenConst += k
 				return true
 			}
-			if call, isLen := c01IsBuiltin(v, "len"); isLen {
-				if _, isPar := call.Call.Args[0].(*ssa.Parameter); isPar {
+			if call, isLen := c01IsBuiltin(cv.V, "len"); isLen {
+				if x.Canon(nil, cv.Fr, call.Call.Args[0]) == hdrV {
 					br.LenOfHdr = true
 					return true
 				}
 				return false
 			}
-			if bo, isBO := v.(*ssa.BinOp); isBO && bo.Op == token.ADD {
-				return walkLen(bo.X) && walkLen(bo.Y)
+			if bo, isBO := cv.V.(*ssa.BinOp); isBO && bo.Op == token.ADD {
+				return walkLen(cv.Fr, bo.X) && walkLen(cv.Fr, bo.Y)
 			}
 			return false
 		}
-		if !walkLen(ms.Len) {
+		if !walkLen(o.Fr, ms.Len) {
 			return nil, false
 		}
 		bad := false
-		allInstrs(fn, func(_ *ssa.BasicBlock, _ int, in ssa.Instruction) {
+		root.Walk(func(fr *c04Frame, in ssa.Instruction) {
 			cp, isCall := in.(*ssa.Call)
 			if !isCall {
 				return
 			}
-			if _, isCopy := c01IsBuiltin(cp, "copy"); !isCopy || memRoot(cp.Call.Args[0]) != ssa.Value(ms) {
+			if _, isCopy := c01IsBuiltin(cp, "copy"); !isCopy {
+				return
+			}
+			if r, _ := x.WholeOf(nil, fr, cp.Call.Args[0]); r != buf {
 				return
 			}
 			p := c04AADPart{Lo: 0, Hi: -1, Pos: cp.Pos(), Src: "other"}
-			if sl, isSl := cp.Call.Args[0].(*ssa.Slice); isSl {
-				if sl.X != ssa.Value(ms) {
-					bad = true
+			dst := cp.Call.Args[0]
+			if sl, isSl := dst.(*ssa.Slice); isSl {
+				if x.Canon(nil, fr, sl.X) != buf {
+					bad = true // a slice of a slice: offsets not evident
 				}
 				if sl.Low != nil {
-					lo, isC := constInt(sl.Low)
+					lo, isC := x.constOf(nil, fr, sl.Low)
 					if !isC {
 						bad = true
 					}
 					p.Lo = lo
 				}
 				if sl.High != nil {
-					hi, isC := constInt(sl.High)
+					hi, isC := x.constOf(nil, fr, sl.High)
 					if !isC {
 						bad = true
 					}
 					p.Hi = hi
 				}
-			} else if cp.Call.Args[0] != ssa.Value(ms) {
+			} else if x.Canon(nil, fr, dst) != buf {
 				bad = true
 			}
-			src := cp.Call.Args[1]
-			if _, f, isF := fieldRead(stripConv(src)); isF {
+			src := x.Canon(nil, fr, cp.Call.Args[1])
+			if _, f, isF := fieldRead(src.V); isF {
 				p.Src = "field:" + f.Name()
-			} else if par, isPar := src.(*ssa.Parameter); isPar {
-				p.Src = "param:" + par.Name()
+			} else if src == hdrV {
+				p.Src = "param:" + hdr.Name()
 			}
 			br.Parts = append(br.Parts, p)
 		})
-		// other writers of the buffer (index stores, calls) make the layout unknown
-		for _, r := range *ms.Referrers() {
-			switch u := r.(type) {
-			case *ssa.Slice, *ssa.Phi, *ssa.DebugRef:
-			case *ssa.Call:
-				if _, isCopy := c01IsBuiltin(u, "copy"); !isCopy && ssa.CallInstruction(u) != aead {
-					bad = true
-				}
-			default:
-				bad = true
-			}
+		// other writers of the buffer (index stores, calls that are not followed) make the layout unknown
+		if !c04BufOnlyCopied(x, buf, aead, 0) {
+			bad = true
 		}
 		if bad {
 			return nil, false
 		}
 		sort.Slice(br.Parts, func(i, j int) bool { return br.Parts[i].Lo < br.Parts[j].Lo })
-		for _, e := range off {
-			if instrDominatedByEdge(fn, e, ms) {
-				br.First = true
+		made := func(st *c04XState, in ssa.Instruction) bool { return in == ssa.Instruction(ms) && st.Fr == o.Fr }
+		flagCut := func(want bool) func(*c04XState, c04XAtom, bool) bool {
+			return func(_ *c04XState, at c04XAtom, truth bool) bool {
+				on, isTest := c04AtomField(at, flag, truth)
+				return isTest && on == want
 			}
+		}
+		if dead, _ := x.Blocked(root.Entry(), &c04XQuery{Target: made}); !dead {
+			br.First, _ = x.Blocked(root.Entry(), &c04XQuery{Target: made, CutCond: flagCut(false)})
+			br.Later, _ = x.Blocked(root.Entry(), &c04XQuery{Target: made, CutCond: flagCut(true)})
 		}
 		out = append(out, br)
 	}
-	sort.Slice(out, func(i, j int) bool { return out[i].First && !out[j].First })
+	sort.SliceStable(out, func(i, j int) bool { return out[i].First && !out[j].First })
 	return out, len(out) > 0
+}
+
+// c04BufOnlyCopied: the buffer value v (in its frame) is only sliced, merged, copied into/from with copy(),
+// returned to the caller, handed to followed helpers that do the same, or passed to the AEAD call.
+func c04BufOnlyCopied(x *c04X, v c04XV, aead ssa.CallInstruction, depth int) bool {
+	if depth > 8 || v.V.Referrers() == nil {
+		return depth <= 8
+	}
+	for _, r := range *v.V.Referrers() {
+		switch u := r.(type) {
+		case *ssa.Slice:
+			if !c04BufOnlyCopied(x, c04XV{v.Fr, u}, aead, depth+1) {
+				return false
+			}
+		case *ssa.Phi:
+			if depth < 4 && !c04BufOnlyCopied(x, c04XV{v.Fr, u}, aead, depth+4) {
+				return false
+			}
+		case *ssa.DebugRef:
+		case *ssa.Return:
+			if v.Fr.Call == nil {
+				return false
+			}
+			cv := v.Fr.Call.Value()
+			if cv == nil {
+				return false
+			}
+			if _, isTuple := cv.Type().(*types.Tuple); isTuple {
+				for i, res := range u.Results {
+					if res == v.V {
+						if ex := extractN(cv, i); ex != nil && !c04BufOnlyCopied(x, c04XV{v.Fr.Parent, ex}, aead, depth+1) {
+							return false
+						}
+					}
+				}
+			} else if !c04BufOnlyCopied(x, c04XV{v.Fr.Parent, cv}, aead, depth+1) {
+				return false
+			}
+		case *ssa.Call:
+			if _, isCopy := c01IsBuiltin(u, "copy"); isCopy || ssa.CallInstruction(u) == aead {
+				continue
+			}
+			if _, isLen := c01IsBuiltin(u, "len"); isLen {
+				continue
+			}
+			k := v.Fr.EnterV(u)
+			if k == nil {
+				return false
+			}
+			for i, a := range u.Call.Args {
+				if a == v.V && i < len(k.Fn.Params) {
+					if !c04BufOnlyCopied(x, c04XV{k, k.Fn.Params[i]}, aead, depth+1) {
+						return false
+					}
+				}
+			}
+		default:
+			return false
+		}
+	}
+	return true
 }
 
 // c04LayoutIs compares a branch with an expected list of parts.
